@@ -989,6 +989,9 @@ class _Simu(_IObserver, _params.Updatable, ABC):
             self.Need_Update()
         elif isinstance(observable, Mesh):
             self._Check_dim_mesh_material()
+            # the coordinates changed: the geometry-derived caches (e.g. the element mass
+            # matrices of HyperElastic) describe the old geometry
+            clear_cached_computed_values(self)
             self.Need_Update()
         else:
             Terminal.MyPrintError("Notification not yet implemented")
